@@ -42,6 +42,7 @@ type World struct {
 	inlineBudget   int
 	implCache      map[string][]*ssa.Function
 	nfCache        map[string]*nfCand
+	privSent       map[string][]string
 	coneAllIfaces  bool     // cone construction follows every in-repo interface (error-kind sweep)
 	errKind        *ErrKind // error-kind sweep in force
 	mutFields      map[string]bool
